@@ -534,6 +534,8 @@ pub fn judge_read(
     let mut top_reorder = false;
     let mut nested_reorder = false;
     let mut nested_struct = false;
+    // the top-level record simply ended early: a prefix of its entries arrived, in order, once each
+    let mut top_ended_early = false;
     let mut skip = vec![false; expected.len()];
     for (path, order) in facts.opened {
         let n = match node_at(facts.root, path.as_slice()) {
@@ -565,6 +567,13 @@ pub fn judge_read(
         let missing = (0..n.min(32)).any(|i| seen[i] == 0);
         let dup = (0..n.min(32)).any(|i| seen[i] > 1);
         if top {
+            let k = order.len();
+            top_ended_early = missing
+                && !unknown
+                && !dup
+                && !reordered
+                && k < n
+                && order.iter().enumerate().all(|(j, d)| matches!(d, Deliver::Orig(i) if *i as usize == j));
             top_drop |= missing;
             top_unknown |= unknown;
             top_dup |= dup;
@@ -642,8 +651,11 @@ pub fn judge_read(
     let a1 = if patched { "AP" } else { "A1" };
     let weak = facts.weak_keys;
     if !keyed {
-        // positional medium: names are not on the wire, structural faults are meaningless
-        if !any_applied && !is_dec && weak {
+        // positional medium: names are not on the wire, structural faults are meaningless — except
+        // a record that ends early: the last field(s) of a Decomposed are missing, nothing else happened
+        if is_dec && top_ended_early && !top_unknown && !top_dup && !top_reorder && !nested_reorder && !nested_struct && !err_fired {
+            expect_err(out, "A4", "the positional record ended before all three fields of Decomposed had been delivered");
+        } else if !any_applied && !is_dec && weak {
             expect_no_wrong_data(out, "positional medium, unreachable stored value");
         } else if !any_applied && !is_dec {
             expect_ok_equal(out, a1, "fault-free positional round trip");
